@@ -42,11 +42,13 @@ MANIFEST = {
 WRITERS = ["SRTWriter", "WebVTTWriter", "MicroDVDWriter", "DFXPWriter", "SinglePositioningDFXPWriter", "LegacyDFXPWriter", "SAMIWriter", "SCCWriter"]
 SETS = ["plain", "spans", "unbalanced", "px-novideo", "two-langs", "empty", "scc", "styled", "unbalanced-two", "unsorted", "spans-redefined", "two-layouts", "sami-read", "dfxp-read", "cells", "cells-swapped"]
 SEEDS = {"quick": ["0", "5"], "thorough": ["0", "1", "2", "3", "5", "8", "13", "21"]}
+# first writes of every (writer, set, options) are repeated under many more hash seeds (one cheap process per seed)
+SWEEP = {"quick": [str(i) for i in range(1, 13)], "thorough": [str(i) for i in range(1, 65)]}
 VERIF = os.path.dirname(os.path.dirname(os.path.dirname(os.path.abspath(__file__))))
 
 
 def bounds(tier):
-    return {"depth": 3 if tier == "quick" else 4, "sets": SETS, "hash_seeds": SEEDS[tier]}
+    return {"depth": 3 if tier == "quick" else 4, "sets": SETS, "hash_seeds": SEEDS[tier], "hash_seeds_for_first_writes": len(SWEEP[tier])}
 
 
 def opts_for(w):
@@ -124,7 +126,9 @@ def make_set(name):
                '<style xml:id="s1" tts:color="red" tts:fontStyle="italic" tts:fontFamily="Arial"/><style xml:id="s2" tts:textAlign="center" tts:fontSize="10px"/><style xml:id="s3" tts:fontWeight="bold"/></styling>'
                '<layout><region xml:id="r1" tts:origin="10% 20%" tts:extent="30% 40%" tts:padding="1% 2% 3% 4%" tts:textAlign="right" tts:displayAlign="before"/><region xml:id="r2" tts:origin="50% 60%"/></layout></head><body><div xml:lang="en">'
                '<p begin="00:00:01.000" end="00:00:02.000" region="r1" style="s1 s2 s3">one <span tts:fontStyle="italic" tts:color="blue" tts:textDecoration="underline" region="r2">two</span></p>'
-               '<p begin="00:00:03.000" end="00:00:04.000" style="s2">three<br/>four</p></div></body></tt>')
+               '<p begin="00:00:03.000" end="00:00:04.000" style="s2">three<br/>four</p>'
+               # no region on the paragraph; its descendants name two different ones
+               '<p begin="00:00:05.000" end="00:00:06.000"><span region="r1">five</span> <span region="r2">six</span></p></div></body></tt>')
         return pycaption.DFXPReader().read(doc)
     if name == "styled":
         L1 = Layout(origin=Point(Size(10, P), Size(10, P)), alignment=Alignment(HorizontalAlignmentEnum.CENTER, VerticalAlignmentEnum.TOP))
@@ -328,19 +332,40 @@ def cross_pairs(acc, states_out):
                     states_out.add(canon.digest(sorted(g1.items())))
 
 
+def pristine_table():
+    """every (writer, set, options) write done alone in a fresh interpreter (hash seed 0), computed once per run"""
+    from concurrent.futures import ThreadPoolExecutor
+
+    keys = [(w, s_, o) for w in WRITERS for s_ in SETS for o in opts_for(w)]
+    with ThreadPoolExecutor(16) as ex:
+        refs = list(ex.map(lambda k: pristine(*k), keys))
+    return [[w, s_, json.dumps(o, sort_keys=True), r] for (w, s_, o), r in zip(keys, refs)]
+
+
 def shards(tier, seed):
     sh = []
+    table = pristine_table()
     for hs in SEEDS[tier]:
         for w in WRITERS:
             sh.append({"w": w, "depth": bounds(tier)["depth"] if hs == "0" else 2, "_env": {"PYTHONHASHSEED": hs}})
         sh.append({"w": None, "_env": {"PYTHONHASHSEED": hs}})
+    for hs in SWEEP[tier]:
+        if hs not in SEEDS[tier]:
+            sh.append({"w": "*", "depth": 1, "_env": {"PYTHONHASHSEED": hs}})
+    for d in sh:
+        d["pristine"] = table
     return sh
 
 
 def run_shard(d):
     acc = Acc()
     states = set()
-    if d["w"]:
+    for w_, s_, optjs, r in d.get("pristine", []):
+        _pristine_cache[(w_, s_, optjs)] = r
+    if d["w"] == "*":
+        for w in WRITERS:
+            explore_writer(acc, w, 1, states)
+    elif d["w"]:
         explore_writer(acc, d["w"], d["depth"], states)
     else:
         cross_pairs(acc, states)
